@@ -657,6 +657,13 @@ func (g *Gate) SendRequest(ctx context.Context, addr string, req *tikvrpc.Reques
 		w.rec.emit(M{"ev": "crash", "client": g.name})
 	}
 	w.exec.Unlock()
+	if req.Type == tikvrpc.CmdCheckSecondaryLocks && err == nil && resp != nil {
+		// the adversarial order for a resolver that digests the regions' answers as they come: an answer that reports a
+		// missing lock overtakes the answers that report every lock in place
+		if r, ok := resp.Resp.(*kvrpcpb.CheckSecondaryLocksResponse); ok && r.CommitTs == 0 && len(r.Locks) == len(req.CheckSecondaryLocks().Keys) {
+			time.Sleep(3 * time.Millisecond)
+		}
+	}
 	switch act.kind {
 	case "drop_resp":
 		return nil, errLost
